@@ -389,8 +389,9 @@ func c08KeCase(c *ctxT, r *gen.R, i int) {
 			copy(d[4:], r.Bytes(len(d)-4))
 			binary.BigEndian.PutUint32(d, gen.Pick(r, []uint32{0, 1, 2, 3, 4, 15, 16, 17, 0xfffffffe, 0xffffffff}))
 		case 3: // InitHello-shaped: junk with a length suffix that is short, exact, or too long
-			body := r.Bytes(32 + r.Intn(80))
-			l := gen.Pick(r, []int{0, 1, len(body) - 34, len(body) - 2, len(body), 65535})
+			body := r.Bytes(gen.Pick(r, []int{0, 1, 2, 32 + r.Intn(80)}))
+			// parseInitHello sees body+trailer (n = len(body)+2 bytes): the claim is valid up to n-2
+			l := gen.Pick(r, []int{0, 1, len(body) - 34, len(body) - 2, len(body) - 1, len(body), len(body) + 1, len(body) + 2, len(body) + 3, 65535})
 			d = concat([]byte{0, 0, 0, 0}, body, []byte{byte(l >> 8), byte(l)})
 		case 4, 5, 6: // a genuine message mutated, truncated or extended
 			if len(genuine) > 0 {
